@@ -714,7 +714,7 @@ Proof.
   unfold az_update_state_for_pair.
   set (snb := az_end_binary_shift s (zlength pre)) in *.
   split; [|discriminate].
-  apply Forall_forall. intros s' Hin.
+  apply Forall_forall. intros s' Hin. cbn [app] in Hin.
   destruct Hin as [<-|Hin].
   { apply (inv_weaken 0); [lia|].
     apply (inv_latch pre [c1; c2] snb 4 pc 8 Hsnb ltac:(lia)); [unfold zlength; simpl; lia|].
@@ -730,8 +730,9 @@ Proof.
     destruct Hin as [<-|[]].
     destruct ff_digit_codes as (D46 & D44 & D32).
     assert (Hc2 : c2 = 32).
-    { unfold pair_bytes in Hbytes. destruct (pc =? 2); [lia|].
-      destruct (pc =? 3); [inversion Hbytes; auto|]. destruct (pc =? 4); inversion Hbytes; auto. }
+    { unfold pair_bytes in Hbytes. destruct (pc =? 2) eqn:P2; [lia|].
+      destruct (pc =? 3) eqn:P3; [inversion Hbytes; auto|].
+      destruct (pc =? 4) eqn:P4; inversion Hbytes; auto. }
     assert (Hv1 : 16 - pc = az_cm 2 c1).
     { unfold pair_bytes in Hbytes. destruct (pc =? 2) eqn:P2; [lia|].
       destruct (pc =? 3) eqn:P3; [inversion Hbytes; subst c1; rewrite D46; lia|].
@@ -829,12 +830,12 @@ Lemma hl_loop_inv : forall n rest pre states, (length rest <= n)%nat ->
   /\ az_hl_loop rest (zlength pre) states <> [].
 Proof.
   induction n as [|n IH]; intros rest pre states Hn Ht HF Hne.
-  - destruct rest; [|simpl in Hn; lia]. rewrite app_nil_r in Ht. subst pre. cbn. auto.
-  - destruct rest as [|cur rest']; [rewrite app_nil_r in Ht; subst pre; cbn; auto|].
+  - destruct rest; [|simpl in Hn; lia]. rewrite app_nil_r in Ht. symmetry in Ht. subst pre. cbn. auto.
+  - destruct rest as [|cur rest']; [rewrite app_nil_r in Ht; symmetry in Ht; subst pre; cbn; auto|].
     assert (Hchar : forall rest1, rest' = rest1 ->
       Forall (InvB 2077 text) (az_hl_loop rest' (zlength pre + 1) (az_update_list_char states cur (zlength pre)))
       /\ az_hl_loop rest' (zlength pre + 1) (az_update_list_char states cur (zlength pre)) <> []).
-    { intros _. unfold az_update_list_char.
+    { intros rest1 _. unfold az_update_list_char.
       destruct (flat_map_inv (InvB 2077 pre) (InvB 2077 (pre ++ [cur]))
                  (fun s => az_update_state_for_char s cur (zlength pre)) states) as [F1 F2]; auto.
       { intros s Hs. eapply inv_update_char; eauto. }
@@ -860,8 +861,10 @@ Proof.
   induction l as [|x t IH]; intros minb r0; cbn [az_min_state].
   - exists r0. auto.
   - destruct (st_bits x <? minb).
-    + destruct (IH (st_bits x) x) as (s & Hs & [->|Hin]); exists s; split; auto; right; [left|right]; auto.
-    + destruct (IH minb r0) as (s & Hs & [->|Hin]); exists s; split; auto. right; right; auto.
+    + destruct (IH (st_bits x) x) as (s & Hs & Hor). exists s. split; auto.
+      destruct Hor as [->|Hin]; right; [left|right]; auto.
+    + destruct (IH minb r0) as (s & Hs & Hor). exists s. split; auto.
+      destruct Hor as [->|Hin]; [left|right; right]; auto.
 Qed.
 
 End HL.
